@@ -16,8 +16,9 @@ from vfw.runner import CaseResult
 PROPERTY = 'C08'
 LEVEL = 'exploration'
 RULE = (
-    "Case = a real logged-in SoulSeekClient on the virtual loop with 1..3 shared directories out of a fixed tree of 6 "
-    "candidate directories (nested ones included; 9 files, mixed-case names) with generated share modes "
+    "Case = a real logged-in SoulSeekClient on the virtual loop with 1..3 shared directories out of a fixed tree of 8 "
+    "candidate directories (nested ones and siblings whose path is a string prefix of another's, e.g. A and A-x, "
+    "A/in and A/in2; 11 files, mixed-case names) with generated share modes "
     "(everyone/friends/users + user lists), a friends list and a block map with arbitrary BlockingFlag sets over 3 "
     "scripted remote users (each with a generated downloader behaviour: completes / never closes / never answers / "
     "refuses; optional 1 KiB/s upload limit, 1..3 upload slots), server-excluded search phrases in arbitrary letter "
@@ -79,7 +80,9 @@ BUDGET_S = {'quick': 150, 'thorough': 1500}
 # fixed universe
 
 USERS = ['ua', 'ub', 'uc']
-CAND = [('A',), ('A', 'in'), ('A', 'in', 'deep'), ('B',), ('B', 'sub'), ('C',)]
+# the last two are *siblings* whose path has another candidate's path as a string prefix (A-x next to A, A/in2 next
+# to A/in): containment must be decided on path components, not on strings
+CAND = [('A',), ('A', 'in'), ('A', 'in', 'deep'), ('B',), ('B', 'sub'), ('C',), ('A-x',), ('A', 'in2')]
 FILES = [
     (('A',), 'Foo Bar.txt', 1500),
     (('A',), 'Loud SONG.txt', 300),
@@ -90,6 +93,8 @@ FILES = [
     (('B',), 'quiet Song.txt', 400),
     (('B', 'sub'), 'Sub tune.txt', 4000),
     (('C',), 'foo.txt', 900),
+    (('A-x',), 'Private bar.txt', 1200),
+    (('A', 'in2'), 'Second tune.txt', 800),
 ]
 FILE_BY_TUPLE = {d + (n,): i for i, (d, n, _) in enumerate(FILES)}
 # candidate directories enclosing each file, shallow -> deep
@@ -159,6 +164,12 @@ class Model:
             return 'not-shared'
         return 'locked'
 
+    def has_prefix_sibling(self, d):
+        """Another shared directory whose path is a string prefix of d's path without containing d."""
+        p = '/'.join(CAND[d])
+        return any(o != d and p.startswith('/'.join(CAND[o])) and CAND[d][:len(CAND[o])] != CAND[o]
+                   for o in self.shared)
+
     def has_shared_ancestor(self, d):
         return any(o != d and CAND[d][:len(CAND[o])] == CAND[o] for o in self.shared)
 
@@ -169,7 +180,7 @@ class Model:
 _FLAGS = st.one_of(st.sampled_from([4, 8, 32, 32, 63, 44, 12, 36, 40, 3, 16, 31]), st.integers(0, 63))
 _USERLIST = st.lists(st.integers(0, 2), unique=True, max_size=3)
 _DIRSETS = [[0], [3], [0, 1], [0, 1, 2], [1], [0, 3], [3, 4], [0, 2], [1, 2], [0, 1, 3], [5], [0, 5], [2, 4, 5],
-            [0, 4], [0, 1, 4]]
+            [0, 4], [0, 1, 4], [0, 6], [0, 6], [0, 1, 6], [1, 7], [0, 1, 7], [1, 7, 6], [6], [0, 7], [3, 6, 0]]
 
 
 @st.composite
@@ -273,14 +284,14 @@ def _op(draw, m, targets):
     if kind == 'adddir':
         free = [d for d in range(len(CAND)) if d not in m.shared]
         nested = [d for d in free if m.has_shared_ancestor(d)]
-        pool = nested * 3 + free
+        pool = nested * 3 + free + [d for d in free if d >= 6] * 2
         d = draw(st.sampled_from(pool)) if pool else draw(st.integers(0, len(CAND) - 1))
         return {'t': 'adddir', 'd': d, 'mode': draw(st.integers(0, 2)),
                 'users': draw(_USERLIST), 'scan': draw(st.sampled_from([0, 0, 1, 2, 2]))}
     if kind == 'rmdir':
         order = sorted(m.shared)
         nested = [i for i, d in enumerate(order) if m.has_shared_ancestor(d)]
-        pool = nested * 3 + list(range(len(order)))
+        pool = nested * 3 + list(range(len(order))) + [i for i, d in enumerate(order) if m.has_prefix_sibling(d)] * 4
         pos = draw(st.sampled_from(pool)) if pool else 0
         return {'t': 'rmdir', 'd': pos, 'scan': draw(st.sampled_from([0, 0, 2]))}
     if kind == 'rescan':
@@ -336,7 +347,7 @@ def _apply_to_model(m, op):
 
 @st.composite
 def case_strategy(draw, avoid=False):
-    cand = draw(st.sampled_from(_DIRSETS) | st.lists(st.integers(0, 5), min_size=1, max_size=3, unique=True))
+    cand = draw(st.sampled_from(_DIRSETS) | st.lists(st.integers(0, len(CAND) - 1), min_size=1, max_size=3, unique=True))
     dirs = [[d, draw(st.sampled_from([0, 0, 1, 1, 2, 2])), draw(_USERLIST)] for d in cand]
     friends = draw(_USERLIST)
     blocked = draw(st.lists(st.tuples(st.integers(0, 2), _FLAGS), max_size=2, unique_by=lambda t: t[0]))
@@ -606,15 +617,18 @@ def run_case(case) -> CaseResult:
             tainted = set()      # files that were at some point held by an item referring to another directory
 
             def note_stale():
+                # the listed finding concerns items moved between *nested* directories: the holding directory
+                # really contains the file (component-wise); an item held by a mere string-prefix sibling is not it
                 for sd in shares.shared_directories:
+                    holder = tuple(os.path.relpath(os.path.normpath(sd.absolute_path), root).split(os.sep))
                     for it in sd.items:
                         owner = it.shared_directory
                         if owner is sd:
                             continue
                         ap = os.path.normpath(it.get_absolute_path())
-                        relp = os.path.relpath(ap, root)
-                        f = FILE_BY_TUPLE.get(tuple(relp.split(os.sep)))
-                        if f is not None:
+                        ft = tuple(os.path.relpath(ap, root).split(os.sep))
+                        f = FILE_BY_TUPLE.get(ft)
+                        if f is not None and ft[:len(holder)] == holder:
                             tainted.add(f)
 
             def K(what, f=None):
@@ -1081,6 +1095,8 @@ def run_case(case) -> CaseResult:
                     nested = model.has_shared_ancestor(d)
                     scan = 2 if c['avoid'] else op['scan']
                     res.label('rmdir:' + ('nested' if nested else 'top') + ':scan%d' % scan)
+                    if model.has_prefix_sibling(d):
+                        res.label('rmdir:has-prefix-sibling')
                     ok, sd = await lib('remove_shared_directory', shares.remove_shared_directory, apath(CAND[d]),
                                        documented=(SharedDirectoryError,))
                     del sd
@@ -1183,8 +1199,8 @@ MANIFEST_ENTRY = {
                   'phrases; reconciliation is checked after each settle across the 1 s user tick and the transfer '
                   'management cycle.',
     'level_note': 'Trusted base: virtual loop, in-memory TCP (latency 1 ms), simulated server and scripted peers, the '
-                  'reference model in checks/c08.py. Sampled histories (<=12 operations, 3 users, 6 candidate '
-                  'directories, 9 files); half of the shards force a full scan after every directory add/remove.',
+                  'reference model in checks/c08.py. Sampled histories (<=12 operations, 3 users, 8 candidate '
+                  'directories, 11 files); half of the shards force a full scan after every directory add/remove.',
 }
 
 def _case(dirs, ops, friends=(), blocked=(), phrases=(), behav=(0, 0, 0)):
